@@ -18,7 +18,8 @@ The emitter of this stage is its own (small, typed, continuation-passing) one: t
 ======================================================================================================
 TRUSTED PART 1 -- semantics given to the Rust subset of this stage (additions to the tables of the earlier stages)
 ------------------------------------------------------------------------------------------------------
- u64, usize, Hash                     `UInt64` (64-bit target: `hash as usize` is the identity); u32 `UInt32`
+ u64, usize, Hash                     `UInt64` (64-bit target: `hash as usize` is the identity); u32 `UInt32`;
+                                      `x as u64` (x : u32) = `UInt32.toUInt64 x`, `x as u32` (x : u64) = `UInt64.toUInt32 x` (truncation)
  a % b, a / b   (b not a literal)     CHECKED: `TTPrim.checked_rem` / `checked_div` = panic when `b == 0` (Rust panics in both profiles)
  a + b, a * b, x += e  (integers)     CHECKED (`UInt64.checked_add/mul` of stage 1): the debug profile panics on overflow
  assert!(c)                           panic when `c` is false (`TTPrim.assert`)
@@ -90,6 +91,7 @@ DECLS = [
     (SEARCHER, r"use weechess_core::\{\s*Hash, Move, MoveGenerationBuffer, MoveGenerator, MoveResult, PseudoLegalMove, State,\s*"
                r"ZobristHasher,\s*\};", "Hash, Move, MoveResult, State, ZobristHasher are the weechess_core items"),
     (SEARCHER, r"use crate::eval::\{self, Evaluation\};", "eval::Evaluation is crate::eval::Evaluation"),
+    (R.MOVES, r"pub struct MoveResult\(pub Move, pub State\);", "struct MoveResult(pub Move, pub State)"),
 ]
 
 ENUMS = ["EvaluationKind", "TranspositionInsertionResult"]
@@ -105,7 +107,7 @@ CONTAINERS_TT = [
      ["with_bucket_count", "with_memory", "find", "insert", "entries", "max_entries"], {}, {}),
     (["impl", "TranspositionTableAccess"], "TranspositionTableAccess",
      ["with_tables", "insert", "find", "entries", "max_entries", "saturation", "iter_moves"],
-     {"small": "#[cfg(test)] constructor of the unit tests"},
+     {"small": ("cfg ( test )", "#[cfg(test)] constructor of the unit tests")},
      {"iter_moves": "TranspositionTableMoveIterator"}),
     (["impl", "Iterator", "for", "TranspositionTableMoveIterator", "<", "'_", ">"], "TranspositionTableMoveIterator", ["next"], {}, {}),
     (["impl", "StateHistory"], "StateHistory", ["new", "increment", "lookup"], {}, {}),
@@ -551,7 +553,10 @@ class TT:
             found = {}
             for raw in raws:
                 if raw.name in skip:
-                    self.notes.append(f"skipped {self_ty}::{raw.name}: {skip[raw.name]}")
+                    want_attr, why = skip[raw.name]
+                    if want_attr not in raw.attrs:
+                        die(SEARCHER, raw.line, f"fn {raw.name} is skipped by name because it is `#[{want_attr}]`, but it no longer carries that attribute")
+                    self.notes.append(f"skipped {self_ty}::{raw.name}: {why}")
                     continue
                 if raw.name not in names:
                     die(SEARCHER, raw.line, f"fn `{raw.name}` of `{' '.join(header)}` is not in the table of translated functions "
@@ -680,7 +685,9 @@ class TT:
             return "Unit"
         if t == "f32":
             return "Rat"
-        if t in self.structs or t in self.enums or t in ("Move", "State", "ZobristHasher", "Evaluation", "MoveResult"):
+        if t == "MoveResult":
+            return "(Move × State)"
+        if t in self.structs or t in self.enums or t in ("Move", "State", "ZobristHasher", "Evaluation"):
             return t
         fail(f"type `{show(t)}` is outside the supported subset")
 
@@ -824,6 +831,8 @@ class TT:
                 return x, to
             if (t, to) == ("u32", "u64"):
                 return f"UInt32.toUInt64 {P(x)}", to
+            if t in ("u64", "usize") and to == "u32":
+                return f"UInt64.toUInt32 {P(x)}", to          # truncation, like `as`
             if t in ("usize", "u64") and to == "f32":
                 return f"Wee.F32.ofInt (Int.ofNat (UInt64.toNat {P(x)}))", "f32"
             self.err(e, f"cast {show(t)} as {show(to)} not supported")
@@ -928,7 +937,7 @@ class TT:
         self.err(e, f"expression kind `{k}` is outside the supported subset")
 
     def expect(self, e, got, want):
-        if got != want and not ({got, want} <= {"u64", "usize"} and False):
+        if got != want:
             self.err(e, f"type mismatch: {show(got)} where {show(want)} is expected")
 
     def call_fn(self, e, lean, params, ret, may_panic, args, env, out, ind, bind, recv=None):
